@@ -212,6 +212,7 @@ package regattaserver
 // ---------------------------------------------------------------- token authentication (C17)
 
 // the verdict of a configured check on a call, as a function of (check, call context)
+//@ import auth "github.com/grpc-ecosystem/go-grpc-middleware/v2/interceptors/auth"
 //@ uninterp func authErr(f Ref, ctx context.Context) error
 //@ func authContract
 //@   assumed
@@ -224,18 +225,21 @@ package regattaserver
 // streaming) answers with exactly the verdict of the configured check
 //@ func (*TablesServer).AuthFuncOverride
 //@   functype TablesServer.AuthFunc authContract
+//@   typefact implements *regattaserver.TablesServer auth.ServiceAuthFuncOverride      // the interceptor finds the override by a run-time type assertion: a changed signature silently disables it
 //@   results c, err
 //@   requires t != nil && t.AuthFunc != nil
 //@   ensures [C17.override.tables] err == authErr(t.AuthFunc, ctx)
 //@   modifies nothing
 //@ func (*BackupServer).AuthFuncOverride
 //@   functype BackupServer.AuthFunc authContract
+//@   typefact implements *regattaserver.BackupServer auth.ServiceAuthFuncOverride      // the interceptor finds the override by a run-time type assertion: a changed signature silently disables it
 //@   results c, err
 //@   requires m != nil && m.AuthFunc != nil
 //@   ensures [C17.override.backup] err == authErr(m.AuthFunc, ctx)
 //@   modifies nothing
 //@ func (*ResetServer).AuthFuncOverride
 //@   functype ResetServer.AuthFunc authContract
+//@   typefact implements *regattaserver.ResetServer auth.ServiceAuthFuncOverride      // the interceptor finds the override by a run-time type assertion: a changed signature silently disables it
 //@   results c, err
 //@   requires m != nil && m.AuthFunc != nil
 //@   ensures [C17.override.reset] err == authErr(m.AuthFunc, ctx)
